@@ -76,6 +76,9 @@ class ContinuousDiscretizer(BaseDiscretizer):
         if self.verbose:  # verbose if requested
             print(f" - [ContinuousDiscretizer] Fit {str(self.quantitative_features)}")
 
+        # checking for previous fits before modifying any attribute
+        self._check_is_not_fitted()
+
         # storing ordering
         all_orders = []
 
